@@ -1717,3 +1717,99 @@ def counted_trips(W, ev, fn, L):
             return None
         return max(i - b + (1 if op == "Ge" else 0), 0)
     return {"init": init, "bound": bound, "count": count, "step": step, "op": op, "info": cl}
+
+
+def field_replacement_sites(W, adt, field):
+    """Sites where the value stored in `adt.field` can be replaced as a whole after construction: an assignment to the field, or a mutable
+    borrow of exactly that field that goes anywhere else than into the receiver position of a method of the field's own (crate-local) type.
+    Returns [(fn, block, description)]; construction (struct literals) does not count."""
+    P = W.prog
+    a = P.adts.get(adt)
+    fty = None
+    if a and a.get("variants"):
+        for x in a["variants"][0]["fields"]:
+            if x["name"] == field:
+                fty = x.get("ty", "")
+    out = []
+
+    def is_field(e):
+        return isinstance(e, dict) and e.get("name") == field and e.get("adt") == adt
+
+    def mentions(j, l):
+        if isinstance(j, dict):
+            if j.get("l") == l and "k" not in j:
+                return 1 + sum(mentions(v, l) for k, v in j.items() if k != "l")
+            return sum(mentions(v, l) for v in j.values())
+        if isinstance(j, list):
+            return sum(mentions(v, l) for v in j)
+        return 0
+
+    def receiver_only(fn, l, depth=0):
+        """every use of local l is the receiver of a method of the field's type (or a reborrow used that way)"""
+        if depth > 4:
+            return False
+        for bl in fn.blocks:
+            if bl.idx not in fn.reachable():
+                continue
+            for st in bl.stmts:
+                if st["k"] in ("storage_live", "storage_dead", "nop"):
+                    continue
+                n = mentions(st, l)
+                if not n:
+                    continue
+                if st["k"] == "assign" and st["dst"].get("l") == l and not st["dst"].get("p"):
+                    if mentions(st["rv"], l):
+                        return False
+                    continue
+                rv = st.get("rv", {}) if st["k"] == "assign" else {}
+                if st["k"] == "assign" and rv.get("k") == "ref" and rv.get("place", {}).get("l") == l and rv["place"].get("p") == ["deref"] and not st["dst"].get("p"):
+                    if not receiver_only(fn, st["dst"]["l"], depth + 1):
+                        return False
+                    continue
+                if st["k"] == "assign" and rv.get("k") == "use" and not st["dst"].get("p") and mentions(rv, l) == 1 and not (rv.get("op", {}).get("mv") or rv.get("op", {}).get("cp") or {}).get("p"):
+                    if not receiver_only(fn, st["dst"]["l"], depth + 1):
+                        return False
+                    continue
+                return False
+            t = bl.term
+            n = mentions(t, l)
+            if not n:
+                continue
+            if t["k"] == "drop":
+                continue
+            if t["k"] != "call" or n != 1:
+                return False
+            a0 = t["args"][0] if t.get("args") else None
+            op = (a0.get("mv") or a0.get("cp")) if isinstance(a0, dict) else None
+            if not op or op.get("l") != l or op.get("p"):
+                return False
+            tg = P.call_targets(t)
+            if not tg or not all(p in P.fns and P.fns[p].impl_self == fty for p in tg):
+                return False
+        return True
+
+    for fn in P.fns.values():
+        if fn.derived:
+            continue
+        for bl in fn.blocks:
+            if bl.idx not in fn.reachable():
+                continue
+            for st in bl.stmts:
+                if st["k"] != "assign":
+                    continue
+                pj = st["dst"].get("p", [])
+                if pj and is_field(pj[-1]):
+                    out.append((fn, bl.idx, "%s.%s is assigned in %s" % (adt.split("::")[-1], field, fn.path.split("::", 1)[-1])))
+                rv = st["rv"]
+                if rv["k"] in ("ref", "rawptr") and (rv.get("mut") or rv["k"] == "rawptr"):
+                    pp = rv["place"].get("p", [])
+                    if pp and is_field(pp[-1]):
+                        if rv["k"] == "rawptr" or st["dst"].get("p") or not receiver_only(fn, st["dst"]["l"]):
+                            out.append((fn, bl.idx, "%s.%s is mutably borrowed in %s by something other than a method of %s" % (
+                                adt.split("::")[-1], field, fn.path.split("::", 1)[-1], (fty or "?").split("::")[-1])))
+            t = bl.term
+            if t["k"] == "call" and t.get("dst"):
+                pj = t["dst"].get("p", [])
+                if pj and is_field(pj[-1]):
+                    out.append((fn, bl.idx, "%s.%s is assigned the result of a call in %s" % (adt.split("::")[-1], field, fn.path.split("::", 1)[-1])))
+    return out
